@@ -29,6 +29,13 @@ def build_split(rng, depth, prefix, rel_dir):
             m_items, m_flat, m_files = build_split(rng, depth - 1, f"{prefix}Q{k}_", mdir)
             if any(q in files for q in m_files) or mpath in m_files:
                 continue
+            # a binding that lives in another module than its struct: this module binds (unnamed, so under the struct's own
+            # name, like the default binding) a struct that a module imported earlier declares
+            earlier = [it[1] for it in flat if it[0] == "struct"]
+            if earlier and rng.random() < 0.5:
+                extra = ("impl", rng.choice(["can", "uart"]), rng.choice(earlier), None, rng.random() < 0.5, [("ext", "id", rng.randrange(2048))])
+                m_items = m_items + [extra]
+                m_flat = m_flat + [extra]
             files.update(m_files)
             files[mpath] = m_items
             items.append(("mod", parts))
